@@ -66,10 +66,14 @@ fn gen_history(ctx: &mut Ctx, g: &[Ent], steps: u64) -> Vec<Op> {
     let mut applied: Option<u64> = None;
     let mut snap: Option<u64> = None; // position of the snapshot stored by build/install
     let mut has_snap = false;
+    let mut purged: Option<u64> = None;
     let mut ops = Vec::new();
     let same = |a: &Ent, b: &Ent| entries_words(std::slice::from_ref(a)) == entries_words(std::slice::from_ref(b));
     for _ in 0..steps {
-        let next = local.keys().next_back().map(|k| k + 1).unwrap_or(first).max(applied.map_or(first, |a| a + 1));
+        // next index to append: after the local log, above the applied position and above the purge marker
+        let next = local.keys().next_back().map(|k| k + 1).unwrap_or(first)
+            .max(applied.map_or(first, |a| a + 1))
+            .max(purged.map_or(first, |p| p + 1));
         match ctx.rng.below(12) {
             0 | 1 | 2 | 3 => {
                 // append committed entries, sometimes an uncommitted (conflicting) tail
@@ -128,6 +132,7 @@ fn gen_history(ctx: &mut Ctx, g: &[Ent], steps: u64) -> Vec<Op> {
                     // openraft purges the log up to the installed snapshot
                     ops.push(Op::Purge(gmap[&o].log_id));
                     local.retain(|k, _| *k > o);
+                    purged = Some(purged.map_or(o, |p| p.max(o)));
                 }
             }
             9 => {
@@ -138,6 +143,7 @@ fn gen_history(ctx: &mut Ctx, g: &[Ent], steps: u64) -> Vec<Op> {
                 let id = gmap.get(&upto).map(|e| e.log_id).unwrap_or_else(|| mk_lid(1, 1, upto));
                 ops.push(Op::Purge(id));
                 local.retain(|k, _| *k > upto);
+                purged = Some(purged.map_or(upto, |p| p.max(upto)));
             }
             10 => {
                 // delete a conflicting suffix: strictly above the applied position
